@@ -469,6 +469,16 @@ def groundwaters(draw, P, start, ndays):
         depth = st.one_of(f2(0.1, 3.0), f2(1.0, 6.0), f2(6.0, 60.0), f2(0.01, 0.3))
     if kind == "const":
         return dict(method="Constant", dates=[start.strftime("%Y/%m/%d")], values=[draw(depth)])
+    g = draw(_groundwater_series(P, start, ndays, kind, depth))
+    # the same observation dates in another notation (unpadded / ISO / month-first strings, Timestamps)
+    fmt = draw(st.sampled_from(["padded", "padded", "unpadded", "unpadded", "iso", "mdy", "ts"]))
+    if fmt != "padded":
+        g["datefmt"] = fmt
+    return g
+
+
+@st.composite
+def _groundwater_series(draw, P, start, ndays, kind, depth):
     n = draw(st.integers(2, 6))
     if kind == "Constant" and flag(draw, 0.4):
         # step-function readings may lie anywhere, also before the start / after the end of the window
